@@ -63,3 +63,12 @@ Definition i64_wrap (z : Z) : Z := ((z + 9223372036854775808) mod 18446744073709
 Definition i64_add (a b : Z) : Z := i64_wrap (a + b).
 Definition i64_sub (a b : Z) : Z := i64_wrap (a - b).
 Definition i64_mul (a b : Z) : Z := i64_wrap (a * b).
+
+(* pointers that are tested against nil in an expression *)
+Definition is_some {A} (o : option A) : bool := match o with Some _ => true | None => false end.
+(* more float64: addition, conversion of an int, the float64 nearest to a rational constant num/den (both below 2^53: the
+   correctly rounded quotient of two exactly representable integers), uint(x) = truncation toward zero (x >= 0, in range) *)
+Definition f64_add (x y : f64) : f64 := @Bplus 53 1024 f64_prec f64_prec_emax mode_NE x y.
+Definition f64_of_Z (z : Z) : f64 := @binary_normalize 53 1024 f64_prec f64_prec_emax mode_NE z 0 false.
+Definition f64_ratio (num den : N) : f64 := f64_div (f64_of_N num) (f64_of_N den).
+Definition f64_to_u64 (x : f64) : N := Z.to_N (Btrunc x).
